@@ -486,7 +486,7 @@ func runC15(c *Ctx) {
 	classes := opClasses()
 	c.Parallel("classes", ref.NearestEven, func(sh *mon.Shard, r *gen.RNG) {
 		j := &specJudge{ctx: c, sh: sh}
-		reps := c.N(2, 40)
+		reps := c.N(12, 120)
 		idx := 0
 		for rep := 0; rep < reps; rep++ {
 			for a := range classes {
@@ -518,7 +518,7 @@ func runC15(c *Ctx) {
 				}
 			}
 		}
-		n := c.N(20000, 400000)
+		n := c.N(100000, 1000000)
 		for i := 0; i < n; i++ {
 			j.judgeClassify(r.AnyBits())
 			if i%4 == 0 {
